@@ -120,9 +120,12 @@ func (p *projector) num(x float64, key string) interface{} {
 	}
 	y := x * p.unit
 	r := math.Round(y)
-	if math.Abs(r) > 2147483000 {
-		p.overflow++
-		return int64(0)
+	if math.Abs(r) > 1000000000 { // beyond TLC's 32-bit integers: saturate and count; the trace side then
+		p.overflow++ // skips the numeric contracts of this line (structural ones remain)
+		if r > 0 {
+			return int64(1000000000)
+		}
+		return int64(-1000000000)
 	}
 	if math.Abs(y-r) > 1e-6*math.Max(1, math.Abs(y)) {
 		p.inexact++
